@@ -206,7 +206,7 @@ def o_add_proton(ctx):
 EXPECTED_H = {'HIS': 2, 'ARG': 5, 'AMD': 2, 'TRP': 1, 'BBN': 1}
 
 
-def mk_complement(name, rotation=None):
+def mk_complement(name, rotation=None, keep=False):
     def body(ctx):
         """complete residues with regular geometry get the full complement;
         every added hydrogen has exactly one (heavy) neighbour at the tabulated
@@ -220,7 +220,11 @@ def mk_complement(name, rotation=None):
             if rotation is not None:
                 v = rot(rotation, v)
             a.x, a.y, a.z = v[0] + t, v[1], v[2]
-        mol = M.run(M.text(name), transform=tr)
+        if keep:
+            from .c04 import with_hydrogens_text
+            mol = M.run(with_hydrogens_text(name), args=['--keep-protons'], transform=tr)
+        else:
+            mol = M.run(M.text(name), transform=tr)
         conf = mol.conformations['1A']
         first_res = min(a.res_num for a in conf.atoms)
         for g in conf.groups:
@@ -228,8 +232,9 @@ def mk_complement(name, rotation=None):
             if exp is None:
                 continue
             nh = len([a for a in g.interaction_atoms_for_acids if a.element == 'H'])
-            if g.type == 'BBN' and (g.atom.res_name == 'PRO' or g.atom.res_num == first_res):
-                continue
+            if g.type == 'BBN' and (g.atom.res_name == 'PRO' or g.atom.res_num == first_res
+                                    or len([b for b in g.atom.bonded_atoms if b.element != 'H']) < 2):
+                continue      # proline, the first residue, or the residue after a chain break (no peptide bond: the amide is a free NH2)
             ctx.claim('full-complement[%s]' % g.type, nh == exp, detail='%s: %d hydrogens (expected %d)' % (g.label, nh, exp))
         for a in conf.atoms:
             if a.element == 'H':
@@ -280,6 +285,10 @@ def obligations(tier):
                               bounds='micro-structure %s under a symbolic grid translation t in [0,2.509] along x; whole pipeline' % name,
                               claim_doc='His 2, Arg 5, Asn/Gln 2, Trp 1, amide 1 (not Pro / first residue); each H has one heavy neighbour at the tabulated length +-0.0009; H on one atom >= 0.5 A apart',
                               max_paths=5000, wall_s=170 if tier == 'quick' else 1200))
+    for name in (['pair_ASP_ARG', 'pep8'] if tier == 'quick' else ['pair_ASP_ARG', 'pep8', 'pair_CYS_CYS_bridge', 'pair_GLU_ARG_TYR', 'tri_HIS']):
+        obs.append(Obligation('O3-complement-and-placement[%s,keep-protons]' % name, mk_complement(name, keep=True), code=pipe + ['propka/bonds.py:BondMaker.check_distance'],
+                              bounds='%s with the hydrogens supplied (the program\'s own, incl. H...O contacts below 2 A), --keep-protons, symbolic grid translation' % name,
+                              claim_doc='as O3: in particular every hydrogen is bonded to exactly one (heavy) atom and every group has its full complement', max_paths=5000, wall_s=170))
     # 'the set of hydrogen positions is the same in every orientation': every constructed hydrogen (incl. sp3 C-H under
     # --protonate-all) is compared between the structure and its shifted copy (shared with C04)
     from .c04 import mk_translate
